@@ -45,10 +45,26 @@ def _moment(m, s, k):
     return tot
 
 
-def quadrature(S, num_locs, kmax, setting_history, cast=False):
+def quadrature(S, num_locs, kmax, setting_history, cast=False, via_likelihood=False):
     """exactness on monomials for all (m, v) in a box; optional: the rule is built after a settings change; cast: the rule
     goes through a dtype conversion (Module._apply) before it is used and must remain the rule that was built"""
-    if setting_history:
+    if via_likelihood:
+        # the rule a one-dimensional likelihood builds for itself follows the setting in force when THAT likelihood is constructed,
+        # whatever other likelihoods were built before under other settings
+        first = gpytorch.likelihoods.BernoulliLikelihood()
+        with gpytorch.settings.num_gauss_hermite_locs(setting_history or 7):
+            second = gpytorch.likelihoods.LaplaceLikelihood()
+        with gpytorch.settings.num_gauss_hermite_locs(num_locs):
+            lk = gpytorch.likelihoods.StudentTLikelihood()
+            lk2 = gpytorch.likelihoods.BetaLikelihood()
+        q = lk.quadrature
+        for nm, l_, want in (("first (default setting)", first, gpytorch.settings.num_gauss_hermite_locs.value()), ("second", second, setting_history or 7),
+                             ("third", lk, num_locs), ("fourth", lk2, num_locs)):
+            S.check_concrete(l_.quadrature.locations.numel() == want, "%s likelihood's rule has the %d nodes of the setting it was built under" % (nm, want),
+                             str(l_.quadrature.locations.numel()))
+        S.check_concrete(lk.quadrature is not lk2.quadrature and lk.quadrature.locations.data_ptr() != first.quadrature.locations.data_ptr(),
+                         "likelihoods do not share one rule object")
+    elif setting_history:
         with gpytorch.settings.num_gauss_hermite_locs(setting_history):
             _ = GaussHermiteQuadrature1D()  # an earlier rule built under another setting
         with gpytorch.settings.num_gauss_hermite_locs(num_locs):
@@ -261,6 +277,8 @@ def scenarios(tier, seed):
     add("bernoulli", n=2, batch=2, cov="lazy")
     add("quadrature", num_locs=3, kmax=5, setting_history=0, cast=True)
     add("quadrature", num_locs=24, kmax=1, setting_history=0, cast=True)
+    add("quadrature", num_locs=3, kmax=5, setting_history=2, via_likelihood=True)
+    add("quadrature", num_locs=24, kmax=1, setting_history=0, via_likelihood=True)
     for k in ("laplace", "studentt", "beta"):
         add("conditional_params", kind=k, n=2)
     add("softmax", n=3, mixing=True)   # n == num_features
